@@ -259,4 +259,12 @@ def explore(ctx):
         'samples': samples_of(cases[:2]) + [{'query': jobs[0][0].query, 'terminal': [jobs[0][1], jobs[0][2]]}],
         'no_terminal_cases': len(cases), 'pty_cases': len(jobs), 'record_cases': rec_checked, 'unmodelled': unm,
     }
+    # the empty result on a LIVE terminal: a table that had rows at an earlier refresh and has none at the end must
+    # end as `No data` too (and a table that moves must end as the final table), whatever was drawn before
+    from props import c16
+    live = c16.run_live(ctx, c16.MOVING[2:], 4 if quick else 60)
+    failures += live['failures']
+    cov['live_terminal_cases'] = live['coverage']['evaluations']
+    cov['evaluations'] += live['coverage']['evaluations']
+    cov['rule'] += '; live-terminal schedules in which the table shrinks to empty: the last frame is `No data`'
     return {'coverage': cov, 'failures': failures}
